@@ -64,7 +64,7 @@ class SharedRandom(FreshRandom):
 
 def h_pure(ctx: Ctx, cfg):
     fx, g = synth.make_grammar(ctx, cfg)
-    creator = FreshRandom(ctx, "creator")  # only used to create the genotype
+    creator = FreshRandom(ctx, "creator", concrete=bool(cfg.get("concrete_genes")))  # only used to create the genotype
     shared = SharedRandom(ctx)  # the search's stream, handed to the representation / decider
     rep = synth.make_rep(cfg, g, shared)
     geno = rep.create_genotype(creator if cfg["rep"] != "dsge" else shared)
@@ -150,6 +150,8 @@ def obligations(tier: str):
         if T:
             add(f"{rep}_f3c_list", fixture="f3c", rep=rep, decider="grow", max_depth=3, gene_length=gl, fuel=60)
             add(f"{rep}_f3b", fixture="f3b", rep=rep, decider="grow", max_depth=2 if rep != "dsge" else 3, gene_length=gl)
+        if rep != "dsge" and T:
+            add(f"{rep}_f3f_float", fixture="f3f", rep=rep, decider="grow", max_depth=1, gene_length=2 if rep == "ge" else 1, concrete_genes=True)
         add(f"{rep}_f5RD", fixture="f5", grammar_fn="g_RD", rep=rep, decider="grow", max_depth=2, gene_length=gl)
         add(f"{rep}_f0_mutated", fixture="f0", rep=rep, decider="grow", max_depth=2 if rep != "dsge" else 3, gene_length=3 if rep == "ge" else 2, ops=["mutate"])
         if T or rep == "dsge":
